@@ -35,6 +35,12 @@ def per_case(u, c, tp, val, kw, out, violate):
         # the datum serialized under the same GLOBAL settings (no per-call exclude_* arguments)
         gkw = {k: v for k, v in kw.items() if k in ("additional_properties", "aliaser")}
         r = engine_ser.run_serialize(serialize, tp, val, **gkw)
+        if r["kind"] == "nonjson":
+            # what is not even JSON data validates against no schema (the model says the schema accepts the image)
+            if c["saccept"]:
+                violate("schema-rejects", f"the serialized datum is not JSON data ({r['why']}): it cannot validate against serialization_schema",
+                        {"schema": _state["schema"], "serialized": repr(r["raw"])[:200]})
+            return
         if r["kind"] != "ok":
             return
         ok = _state["validator"].is_valid(r["raw"])
@@ -133,7 +139,7 @@ def main() -> int:
     rep.assumptions = ["jsonschema (Draft 2020-12) is the independent JSON Schema semantics",
                        "exclude_defaults / exclude_none are set as global settings for both the schema and serialize",
                        "no field is dropped by unset-tracking (universe classes are not with_fields_set)"]
-    engine_ser.run("C07", rep, per_case=per_case)
+    engine_ser.run("C07", rep, per_case=per_case, per_case_nonjson=True)
     rep.set("generic_class_scenarios", generic_scenarios(rep))
     return rep.finish()
 
